@@ -83,6 +83,19 @@ def main():
         regw[key] = int(m.group(1))
     if regw["arm64"] != regw["arm64_old"]:
         die("arm64 / arm64_old register widths differ")
+    # CpuContext::REGISTERS of each context type (the names a STACK CFI rule may read or write)
+    for ty, key in (("CONTEXT_X86", "x86"), ("CONTEXT_AMD64", "amd64"), ("CONTEXT_ARM", "arm"),
+                    ("CONTEXT_ARM64", "arm64"), ("CONTEXT_ARM64_OLD", "arm64_old"), ("CONTEXT_MIPS", "mips")):
+        m = one(ctxrs, r"impl CpuContext for md::%s \{\s*type Register = u(?:32|64);\s*const REGISTERS: &'static \[&'static str\] = &\[([^\]]*)\];" % ty,
+                "REGISTERS of " + ty)
+        regs = strlist(m.group(1), "REGISTERS of " + ty)
+        if key == "arm64_old":
+            if regs != arm64_regs:
+                die("arm64 / arm64_old REGISTERS differ")
+            continue
+        if key == "arm64":
+            arm64_regs = regs
+        emitl(key + "_registers", regs)
     # sp / ip names used by the CFI walker (set_cfa / set_ra)
     cfi_names = {}
     for ty, key in (("CONTEXT_X86", "x86"), ("CONTEXT_AMD64", "amd64"), ("CONTEXT_ARM", "arm"),
